@@ -19,11 +19,11 @@ INFO = {
         'exact form on the main branch; v within 2% of V on its asymptotic branch; each guard fires exactly below its documented constant '
         '(machine epsilon, 1e-5) and w\'s guard returns 1 below and 0 above zero; the denominator b = A - B of vt and wt is well conditioned, '
         '(A+B)*t <= 10*|A-B| - a necessary condition for the 1e-13/t accuracy budget, decided over the reals; its float consequence is what the '
-        'replay measures against mpmath; wt in [0, 1 + t^2] (M5/M6; the property\'s "inside [0,1] up to rounding" is claimed with this explicit slack); |wt - exact W~| <= 20t over the '
-        'reals on every path (same term on the main branch; on the branch where vt has switched to its asymptotic form and wt has not, '
+        'replay measures against mpmath; wt in [0, 1] (M5/M6); |wt - exact W~| <= 20t over the '
+        'reals on every path (the same term since the repair 28b9bd6 of /repo; on a tree where wt squares vt\'s cut-off value the mixed branch is bounded '
         'through M2, M2c, M7u and an anchor of phi).'),
     'bounds': {'quick': 'x in [-40, 40], t in [1e-8, 1e-2]; CDF x in [-37.5, 38]', 'thorough': 'same obligations, 3x solver budget, cvc5 re-check of the mode-E queries'},
-    'outside': ['wt <= 1 exactly (proved: wt <= 1 + t^2)', 'the 1e-6 relative agreement of v and w with V and W in floats',
+    'outside': ['the 1e-6 relative agreement of v and w with V and W in floats',
                 'the 1e-13/t rounding part of the wt bound (the 20t part is decided over the reals; cancellation analysis in floats not encodable)', 'dense sweeps / ulp neighbourhoods (a solver covers the interval or does not)',
                 'underflow (standard model of floating point without underflow); libm accuracy is an assumption (4 ulp)'],
     'stubs': ['statistics.erf / math.erf / math.erfc -> true function * (1+e), |e| <= 4 ulp (mode E)', 'common._normal -> Phi, phi applications (mode R)'],
@@ -274,7 +274,7 @@ def run_fn(spec, ctx):
                            a_ * m_ < p_ - q_, p_ - q_ < b_ * m_]
                 anch = tuple(phi_anchor_axioms(eng, [-8.9]))
                 obs[-1] = ('sign', 'wt >= 0', o < 0, tuple(axm) + anch)
-                obs.append(('upper', 'wt <= 1 + t^2', o > 1 + t * t, tuple(axm) + anch))
+                obs.append(('upper', 'wt <= 1', o > 1, tuple(axm) + anch))
                 # distance from the exact W~ (the main formula with the exact V~, no guards), over the reals: <= 20 t.
                 # On the main branch the two are the same term; where vt has switched to its asymptotic form but wt has not,
                 # wt - W~ = vt^2 - V~^2, bounded through M2 (V~ in [l, u]), M2c (monotone density: the truncated mean lies in the
@@ -424,8 +424,8 @@ def replay(cand):
         bad = abs(mp.mpf(got) - ex) > tolv
         det = f'= {got!r}, exact value {mp.nstr(ex, 17)}, allowed deviation {mp.nstr(tolv, 5)}'
     elif clause == 'upper':
-        bad = got > 1 + tv * tv + 1e-13 / tv
-        det = f'= {got!r} > 1 + t^2 (+ rounding allowance 1e-13/t = {1e-13 / tv:.3g})'
+        bad = got > 1 + 1e-13 / tv
+        det = f'= {got!r} > 1 (+ rounding allowance 1e-13/t = {1e-13 / tv:.3g})'
     elif clause == 'upperw':
         bad = got > 1 + 1e-12
         det = f'= {got!r} > 1'
